@@ -372,6 +372,7 @@ behaviour = st.one_of(
     st.tuples(st.just('raise_err'), st.sampled_from(CODES9)), st.tuples(st.just('raise_fresh_err'), messages), st.tuples(st.just('raise_badstr')),
     st.tuples(st.just('raise_noargs'), st.sampled_from(EXC)),
     st.tuples(st.just('raise_chained'), st.sampled_from(['#VALUE!', '#N/A', '#NUM!']), st.sampled_from(['#VALUE!', '#N/A', 'KeyError'])),
+    st.tuples(st.just('resubscribe'), st.sampled_from(['callCellValue', 'callVariable', 'callFunction', 'callRangeValue'])),
     st.tuples(st.just('reenter'), st.sampled_from(['1+1', 'HF(1)', '1/0', '((', 'NOSUCH(1)', 'SUM(B2,v_x)', '#REF!', '"a"&v_x'])),
 ).map(list)
 setter_vals = st.lists(val_spec, max_size=3)
@@ -385,6 +386,9 @@ fault_case = st.fixed_dictionaries({
     'listeners': st.fixed_dictionaries({'callFunction': st.lists(listener_b, max_size=2), 'callVariable': st.lists(listener_b, max_size=2),
                                         'callCellValue': st.lists(listener_b, max_size=2), 'callRangeValue': st.lists(listener_b, max_size=2)}),
 })
+
+
+_RESUB = []
 
 
 class BadStr(Exception):
@@ -421,6 +425,14 @@ def act(b, P, depth=[0]):
             raise (KeyError('missing') if b[2] == 'KeyError' else err.from_message(b[2]))
         except Exception as exc:
             raise err.from_message(b[1]) from exc
+    if kind == 'resubscribe':
+        # a listener that subscribes another listener - which does the same - to the event being delivered (new subscriptions count from the next emit)
+        def again(*a):
+            if len(_RESUB) < 200000:
+                _RESUB.append(1)
+                P.on(b[1], again)
+        again()
+        return None
     if kind == 'reenter':
         if depth[0] >= 2:
             return 0
@@ -439,6 +451,7 @@ def act(b, P, depth=[0]):
 def check_fault(case):
     import io
     import contextlib
+    del _RESUB[:]
     P = hot().Parser(debug=case['debug'])
     P.set_variable('v_x', dec(case['var']))
     P.set_function('HF', lambda *a: act(case['fn'], P))
@@ -584,7 +597,7 @@ LAWS = [
         rule='every name of formulas.supported() x arity 0, 1, 2 in full over a pool of 24 values holding one or more of every type (blank, logicals, integers, floats incl. inf/nan, text, numeric text, date text, a date-time, flat / 2-D / empty arrays, an error value) '
              'plus deterministic samples of arity 3 (all 13824 tuples per function in thorough) and arity 4; same oracle, every call under the step budget'),
     Law('host_faults', check_fault, strategy=fault_case, key=fault_key, classes=fault_classes, quick=6000, thorough=200000, shards=(16, 16),
-        required=('fn:ret', 'fn:raise', 'fn:raise_err', 'fn:ret_fresh_err', 'fn:raise_badstr', 'fn:reenter', 'fn:raise_chained', 'listener:raise', 'setter-used'),
+        required=('fn:ret', 'fn:raise', 'fn:raise_err', 'fn:ret_fresh_err', 'fn:raise_badstr', 'fn:reenter', 'fn:raise_chained', 'fn:resubscribe', 'listener:raise', 'setter-used'),
         rule='20 formulas touching a custom function, a variable, a cell, a range and built-ins, with every host callback (the function, 0-2 listeners per event kind) given a generated behaviour: return any value, return a fresh / subclassed / unprintable error object with any message, '
              'raise any of 18 exception types with any message (incl. canonical codes and none), raise an error singleton or a fresh error, raise an exception whose str() fails, call the setter 0-3 times with anything, re-enter parse(); both debug settings'),
     Law('fuzz', check_fuzz, enumerate=enum_fuzz, shards=(4, 16), weight=fuzz_weight, nt_weight=fuzz_ntweight, key=lambda c: 'fuzz', guard=3700,
